@@ -351,7 +351,7 @@ func genMixedScenario(t *rapid.T, ties bool) (scenario, []string) {
 		}
 	}
 	if rapid.IntRange(0, 4).Draw(t, "stray") == 0 {
-		sc.Events = append(sc.Events, event{At: rapid.SampledFrom([]int64{0, 5*sec + 3, 11*sec + 3}).Draw(t, "strayat"), Kind: "answer", Sid: rapid.SampledFrom([]string{"nobody", "p1"}).Draw(t, "straysid"), Answer: "stray-answer", Door: "ipc"})
+		sc.Events = append(sc.Events, event{At: rapid.SampledFrom([]int64{0, 5*sec + 3, 11*sec + 3}).Draw(t, "strayat"), Kind: "answer", Sid: straySid(t, &sc), Answer: "stray-answer", Door: "ipc"})
 		labels = append(labels, "stray answer")
 	}
 	if ties {
@@ -565,4 +565,16 @@ func init() {
 			return checkWiring(h)
 		})
 	})
+}
+
+// straySid: the id of one of the scenario's polls (a premature or duplicate answer) or an id
+// nobody polled with.
+func straySid(t *rapid.T, sc *scenario) string {
+	ids := []string{"nobody"}
+	for _, e := range sc.Events {
+		if e.Kind == "poll" {
+			ids = append(ids, e.Sid)
+		}
+	}
+	return rapid.SampledFrom(ids).Draw(t, "straysid")
 }
